@@ -110,3 +110,9 @@ Example ex_sections_ok : sections_ok [(0, 0, 3, 2, [65;65;65;65;67]); (1, 0, 1, 
   ParseMappings [(0, 0, 3, 2, [65;65;65;65;67]); (1, 0, 1, 1, [65;65;65;65;65])]
   = Ok (PMap 4 3 [(0, 0, 0, 0, 0, 1); (1, 0, 3, 0, 0, 2)]).
 Proof. split; [repeat constructor; lia | vm_compute; reflexivity]. Qed.
+
+From Coq Require Import String.
+(* the service inventory contains goroutines that run builds (hypothesis of service_goroutines_unprotected_are_known) *)
+Example ex_service_spawns : existsb (fun s => runs_build s && String.eqb (sp_pkg s) "cmd/esbuild"%string) service_spawn_sites = true
+  /\ existsb (fun s => runs_build s && String.eqb (sp_pkg s) "pkg/api"%string) service_spawn_sites = true.
+Proof. vm_compute. split; reflexivity. Qed.
